@@ -84,6 +84,21 @@ def run(ctx):
                 fails.append({"why": "rejected altered credential (%s of %s) discloses fields %s" % (kind, name, leak),
                               "cred_hex": cred.hex()[:3000], "kind": kind})
 
+    # credentials whose plaintext interior is an exact multiple of the cipher block (payload length = 7 mod 16), so that the
+    # final cipher block is pure PKCS #5 padding: every bit of the last two blocks flipped, every padding-only edit
+    for (c, m) in ((4, 5), (2, 3), (3, 2), (5, 6)):
+        for L in ((23, 7) if not ctx.thorough else (7, 23, 39, 55)):
+            r, diff = cr.encode_both(uid=1234, gid=5678, cipher=c, mac=m, zip_=0, data=b"P" * L)
+            if not (r and r["error_num"] == 0):
+                continue
+            body = hostile.unarmor(r["data"])
+            name = "c%dm%d-padblock-L%d" % (c, m, L)
+            for bit in range((len(body) - 32) * 8, len(body) * 8):
+                x = bytearray(body); x[bit // 8] ^= 1 << (bit % 8)
+                reject("bitflip-padblock", bytes(x), name)
+            for k in (1, 7, 8, 15, 16):
+                reject("truncate-padblock", body[:-k], name)
+                reject("extend-padblock", body + body[-k:], name)
     for b in bases:
         ctx.log("edits of", b["name"])
         body, n, name = b["body"], len(b["body"]), b["name"]
